@@ -96,6 +96,13 @@ class RefPeerInflater(object):
         """-> payload items; raises ValueError when a conforming peer cannot inflate"""
         if self.c.concrete is not None:
             import zlib
+            # window actually requested from zlib by the client (recorded by the replay shim): real DEFLATE only
+            # exceeds the negotiated window once more than 2^bits of history exist, so the API use is checked directly
+            from symlomond.env import World
+            used = (World.cur.notes.get('zlib_real') or {}).get('compress_wbits') or []
+            lim = self.wbits if self.wbits != 8 else 9
+            if used and abs(used[-1]) > lim:
+                raise ValueError('deflated with a %d-bit window but client_max_window_bits=%d was negotiated' % (abs(used[-1]), self.wbits))
             try:
                 out = self.real.decompress(bytes(payload) + b'\x00\x00\xff\xff')
             except zlib.error as e:
